@@ -46,7 +46,8 @@ def run_scenario(bins, sc, keep=False):
                 if kd != "undef":
                     # noexec_later: executable now, made non-executable by an earlier command of the same run
                     fx.add_cmd(t["path"], c, _resolve_steps(fx, sc, steps), kind="def" if kd == "noexec_later" else kd, ext=ext,
-                               cmd_dir=sc.get("cmd_dirs", {}).get(t["path"]), copy=(kd == "noexec_later"))
+                               cmd_dir=sc.get("cmd_dirs", {}).get(t["path"]), copy=(kd == "noexec_later"),
+                               defpath=sc.get("defpaths", {}).get("%s|%s" % (c, t["path"])))
                     if kd in ("def", "noexec") and "%s|%s" % (c, t["path"]) in sc.get("symlinks", ()):
                         # the command file is a symbolic link to an executable (or non-executable) file kept elsewhere
                         if kd == "def":
@@ -58,6 +59,12 @@ def run_scenario(bins, sc, keep=False):
                         os.makedirs(os.path.dirname(real), exist_ok=True)
                         os.replace(link, real)
                         os.symlink(real if (len(t["path"]) + len(c)) % 2 else os.path.relpath(real, os.path.dirname(link)), link)
+        # an executable started in ANOTHER target's directory still says whose task it was started as (the helper knows
+        # itself by executable and working directory): {"exe": repository-relative file, "target": t, "cmd": c}
+        for d in sc.get("misplaced", []):
+            k = fixture.helper_key(os.path.join(fx.wp, d["exe"]), os.path.join(fx.repo, d["target"]))
+            with open(os.path.join(fx.hdir, "scripts", k + ".json"), "w") as f:
+                json.dump({"id": {"cmd": d["cmd"], "target": d["target"]}, "steps": [{"op": "exit", "code": 0}]}, f)
         # scripts may reference other tasks' keys: resolve after all commands exist
         for t in sc["targets"]:
             for c in cmds:
@@ -686,6 +693,33 @@ def linked_noexec_scenario(seed=0, cmd_dir=False):
             if t["path"] == bad:
                 t["commands"] = {"path": bad + "/ci"}
         sc["cmd_dirs"] = {bad: bad + "/ci"}
+    return sc
+
+
+def shared_dir_definitions_scenario(seed=0, mode="all"):
+    """C05: several targets keep their commands in ONE directory; that directory has no file for `build`, and exactly one
+    target defines `build` by an explicit path of its own (`commands.definitions`).  Whether a target defines a command is
+    a fact about that target: the one with the definition has its executable started once, the others are `undefined`
+    and nothing is started in their directories -- whichever of them is planned first, and `test` (a file in the common
+    directory) runs for all of them."""
+    rng = random.Random(seed)
+    names = ["svc-a", "svc-b", "svc-c", "svc-d"][: rng.choice([3, 4])]
+    owner = rng.choice(names)
+    own = owner + "/own/build-it.sh"
+    ts = []
+    for n in names:
+        t = {"path": n, "commands": {"path": "tools/cmd"}}
+        if n == owner:
+            t["commands"]["definitions"] = {"build": {"path": own}}
+        ts.append(t)
+    rng.shuffle(ts)
+    kinds = {"build|" + n: "undef" for n in names if n != owner}
+    sc = {"targets": ts, "commands": ["build", "test"], "kinds": kinds, "fou": False, "scripts": {}, "mode": mode,
+          "cmd_dirs": {n: "tools/cmd" for n in names}, "defpaths": {"build|" + owner: own},
+          "misplaced": [{"exe": own, "target": n, "cmd": "build"} for n in names if n != owner],
+          "label": "shared-dir-definitions-%d-%s" % (seed, mode)}
+    if mode == "targets":
+        sc["named"] = list(names)
     return sc
 
 
